@@ -56,10 +56,29 @@ class PDict:
 
 
 class SymMap:
-    """A dict with symbolic key set: dom: z3 Array K->Bool, val: z3 Array K->V."""
+    """A dict with symbolic key set: dom: Array K->Bool, val: Array K->V; `none`: Array K->Bool marks keys whose
+    value is None (Optional values); `keys`: ghost sequence in which the keys are iterated (created on demand)."""
 
-    def __init__(self, dom, val, kty, vty):
-        self.dom, self.val, self.kty, self.vty = dom, val, kty, vty
+    def __init__(self, dom, val, kty, vty, none=None, keys=None):
+        self.dom, self.val, self.kty, self.vty, self.none, self.keys = dom, val, kty, vty, none, keys
+
+    def copy(self):
+        return SymMap(self.dom, self.val, self.kty, self.vty, self.none, self.keys)
+
+    @staticmethod
+    def fresh(prefix, kty='str', vty='str', optional=False):
+        import z3 as _z
+        ks, vs = z3sort(kty), z3sort(vty)
+        return SymMap(_z.Const(prefix + '_dom', _z.ArraySort(ks, _z.BoolSort())),
+                      _z.Const(prefix + '_val', _z.ArraySort(ks, vs)), kty, vty,
+                      _z.Const(prefix + '_none', _z.ArraySort(ks, _z.BoolSort())) if optional else None)
+
+    @staticmethod
+    def empty(kty='str', vty='str', optional=False):
+        import z3 as _z
+        ks, vs = z3sort(kty), z3sort(vty)
+        return SymMap(_z.K(ks, _z.BoolVal(False)), _z.Const('unspecified_val_%s' % vty, _z.ArraySort(ks, vs)), kty, vty,
+                      _z.K(ks, _z.BoolVal(False)) if optional else None)
 
 
 class Obj:
@@ -214,7 +233,7 @@ def clone_value(v, memo=None):
         memo[id(v)] = o
         return o
     if isinstance(v, SymMap):
-        o = SymMap(v.dom, v.val, v.kty, v.vty)
+        o = v.copy()
         memo[id(v)] = o
         return o
     if isinstance(v, tuple):
